@@ -246,20 +246,20 @@ theorem range_inverted_partial (lim : Nat) (pre d1 d2 : List Char) (data : List 
 number written with more than `lim` digits makes both consumers answer 400 -/
 theorem range_overlong (lim : Nat) (pre d1 d2 : List Char) (data : List α)
     (hpre : lower pre = bytesEq) (h1 : AllDigits d1) (h2 : AllDigits d2)
-    (hlong : lim < d1.length ∨ (lim < d2.length ∧ (d1 = [] ∨ d1.length ≤ lim))) :
+    (hlong : lim < d1.length ∨ lim < d2.length) :
     segmentResponse lim (some (pre ++ d1 ++ '-' :: d2)) data = badResp ∧
     onDemandResponse lim (some (pre ++ d1 ++ '-' :: d2)) data = badResp := by
   apply segment_unparsed
   rw [parseRange_canonical_split hpre h1 h2]
-  rcases hlong with hl | ⟨hl, hd1⟩
+  by_cases hl : lim < d1.length
   · have hne : d1 ≠ [] := by intro e; rw [e] at hl; simp at hl
     rw [if_neg hne, pyInt_too_long ⟨hne, h1⟩ hl]
-  · have hne2 : d2 ≠ [] := by intro e; rw [e] at hl; simp at hl
+  · have hl2 : lim < d2.length := by rcases hlong with h | h; exact absurd h hl; exact h
+    have hne2 : d2 ≠ [] := by intro e; rw [e] at hl2; simp at hl2
     by_cases hd : d1 = []
-    · rw [if_pos hd, pyInt_too_long ⟨hne2, h2⟩ hl]; rfl
-    · have hl1 : d1.length ≤ lim := by rcases hd1 with h | h; exact absurd h hd; exact h
-      rw [if_neg hd, pyInt_digits ⟨hd, h1⟩ hl1]
-      simp only [if_neg hne2, pyInt_too_long ⟨hne2, h2⟩ hl, Option.map_none]
+    · rw [if_pos hd, pyInt_too_long ⟨hne2, h2⟩ hl2]; rfl
+    · rw [if_neg hd, pyInt_digits ⟨hd, h1⟩ (by omega)]
+      simp only [if_neg hne2, pyInt_too_long ⟨hne2, h2⟩ hl2, Option.map_none]
 
 /-! ### non-vacuity, the excluded point, and the D4 witnesses on the unrepaired logic -/
 
@@ -289,6 +289,17 @@ example : segmentResponse 4300 (some [' ', 'B', 'Y', 'T', 'E', 'S', '=', ' ', '+
 -- `bytes=0000-5` is refused with 400 instead of the RFC answer
 example : segmentResponse 3 (some (bytesEq ++ ['0', '0', '0', '0', '-', '5'])) exData
     ≠ rfcResponse (.firstLast 0 5) exData := by decide
+
+-- hypotheses of `range_suffix_whole_partial` / `range_inverted_partial` at concrete instances, and
+-- their excluded point (`lim = 1`, two-digit numbers): refused with 400
+example : IsDigits ['2', '0'] ∧ exData.length ≤ decVal ['2', '0'] ∧ exData ≠ [] :=
+  ⟨⟨by decide, by decide⟩, by decide, by decide⟩
+example : segmentResponse 1 (some (bytesEq ++ '-' :: ['2', '0'])) exData = badResp := by decide
+example : IsDigits ['1', '2'] ∧ IsDigits ['0', '5'] ∧ decVal ['0', '5'] < decVal ['1', '2'] :=
+  ⟨⟨by decide, by decide⟩, ⟨by decide, by decide⟩, by decide⟩
+example : segmentResponse 4300 (some (bytesEq ++ ['1', '2'] ++ '-' :: ['0', '5'])) exData = unsatResp exData := by
+  decide
+example : onDemandResponse 1 (some (bytesEq ++ ['1', '2'] ++ '-' :: ['0', '5'])) exData = badResp := by decide
 
 /-- D4 (a) on the **unrepaired** logic: `bytes=-20` on a 10-byte segment is
 answered 206 with the impossible `Content-Range: bytes -10-9/10` -/
